@@ -35,6 +35,7 @@ class PEval:
         self.slice_lens = slice_lens or {}        # canon(param id) -> length
         self.transparent = transparent_calls      # callee paths returning their single interesting argument unchanged
         self.subject_ids = set()
+        self.trace = []                           # calls in evaluation order: (kind, callee path / method name / local id of the called closure, [argument values])
 
     # ---- helpers ---------------------------------------------------------------------------------------------
     def _subject(self, e):
@@ -250,6 +251,10 @@ class PEval:
             for a in args:
                 if isinstance(a, tuple) and a and a[0] == "diverge":
                     return a
+            target = c or e.get("name")
+            if k == "callv" and peel(e.get("f", {})).get("k") == "local":
+                target = ("local", canon(peel(e["f"])["id"]))
+            self.trace.append((k, target, args))
             return ("call", c or e.get("name"), args)
         m = self._diverging_macro(e) if e.get("ty") == "!" else None
         if m:
